@@ -222,7 +222,8 @@ def run_case(case, tier):
     ter = [pdbio.raw("TER")]
     ta, tb = pdbio.dump(a), pdbio.dump(b)
     tab, tba = pdbio.dump(a + ter + b), pdbio.dump(b + ter + a)
-    ra, rb = obs.run_single(ta, write_pka=False, debug_iterative=True), obs.run_single(tb, write_pka=False, debug_iterative=True)
+    xo = util.neutral_options(rng, families=("grid", "protonation", "keep", "swap-display"), classes=classes)
+    ra, rb = obs.run_single(ta, xo, write_pka=False, debug_iterative=True), obs.run_single(tb, xo, write_pka=False, debug_iterative=True)
 
     def sweeps(run):
         """Number of solver sweeps per conformation, read from the DEBUG records of propka.iterative."""
@@ -239,7 +240,7 @@ def run_case(case, tier):
         classes.append("parts-need-different-sweep-counts")
     if sa[1] or sb[1]:
         classes.append("part-hits-the-10-sweep-cap")
-    rab, rba = obs.run_single(tab, write_pka=False), obs.run_single(tba, write_pka=False)
+    rab, rba = obs.run_single(tab, xo, write_pka=False), obs.run_single(tba, xo, write_pka=False)
     counts["pipeline_runs"] = 4
     box = pdbio.bbox(a + b)
     extent = max(box[3] - box[0], box[4] - box[1], box[5] - box[2]) / 1000.0
